@@ -76,6 +76,7 @@ struct ModelOut {
     bump_execs: u64,
     max_reads: u64,
     first_retry_log: Option<Vec<Ev>>,
+    first_log: Option<Vec<Ev>>,
     viols: Vec<Viol>,
     panic: Option<String>,
 }
@@ -141,6 +142,9 @@ fn body(script: [u8; SCRIPT_LEN], threads: u8, calls: u8, cfg: Cfg) {
         let retry = reads > (threads as u64) * (calls as u64) + 1;
         // a returned value that no clock read produced came from the `last + 1` path
         let bumped = log.iter().any(|e| matches!(e, Ev::Ret(t, v) if *t < threads && !log.iter().any(|r| matches!(r, Ev::Read(_, Some(x)) if x == v))));
+        if a.first_log.is_none() {
+            a.first_log = Some(log.clone());
+        }
         let mut outcome: Vec<i64> = vals.iter().flatten().copied().collect();
         outcome.push(fin);
         if retry {
@@ -244,9 +248,13 @@ impl Sweep {
             if p.contains("/loom-") && !p.contains("deadlock") && !p.contains("exceeded") {
                 vcore::machinery_error(&format!("loom failed internally on {case}: {p}"));
             }
-            let key = if p.contains("deadlock") { "loom:deadlock" } else if p.contains("exceeded") { "loom:bound-exceeded" } else { "panic" };
+            let key = if p.contains("deadlock") { "loom:deadlock" } else if p.contains("exceeded") { "no-progress" } else { "panic" };
             let what = format!("model {threads}x{calls} cfg={} script={:?} panicked after {} executions: {p}", cfg.name(), script_names(&script), out.executions);
             a.viols.push((order.0, order.1, key.to_string(), what, case.clone()));
+            // the aborted execution was explored too (keeps a run in which every model aborts from looking vacuous)
+            r.eval(1);
+            r.transitions.fetch_add(1, std::sync::atomic::Ordering::Relaxed);
+            r.states.fetch_add(1, std::sync::atomic::Ordering::Relaxed);
         }
         for v in &out.viols {
             let mut c = case.clone();
@@ -286,12 +294,22 @@ impl Sweep {
             a.audited_models += 1;
             a.audited_execs += audited;
         }
-        if a.samples.len() < 2 && out.first_retry_log.is_some() && script.iter().filter(|s| **s != clock::STALL).count() >= 3 {
+        let busy = script.iter().filter(|s| **s != clock::STALL).count() >= 3;
+        if a.samples.len() < 2 && (busy || a.samples.is_empty()) {
             let mut c = case;
             c["loom_executions"] = json!(out.executions);
             c["distinct_outcomes"] = json!(out.outcomes.len());
-            c["one_execution_with_a_failed_compare_exchange"] = log_json(out.first_retry_log.as_ref().unwrap());
-            a.samples.push(c);
+            match (&out.first_retry_log, &out.first_log) {
+                (Some(l), _) => c["one_execution_with_a_failed_compare_exchange"] = log_json(l),
+                (None, Some(l)) => c["first_execution"] = log_json(l),
+                _ => {}
+            }
+            if busy || a.samples.is_empty() {
+                if !busy {
+                    a.samples.clear();
+                }
+                a.samples.push(c);
+            }
         }
     }
 }
@@ -459,7 +477,7 @@ fn main() {
     r.note("preemption_bound", json!(PREEMPTION_BOUND));
     r.note("worker_processes", json!(n));
     r.note("determinism_audit", json!({"models_run_twice": a.audited_models, "executions_compared": a.audited_execs}));
-    a.samples.sort_by_key(|s| s["script"].to_string());
+    a.samples.sort_by_key(|s| (s["one_execution_with_a_failed_compare_exchange"].is_null(), s["script"].to_string()));
     for s in a.samples.iter().take(4) {
         r.sample(s.clone());
     }
